@@ -224,6 +224,36 @@ func H_C04_source() {
 	}
 }
 
+// H_C04_race: "performed iff the condition holds" under concurrency. A compose onto dst conditioned
+// on dst's current generation overlaps an unconditional upload to dst, all interleavings. The upload
+// always succeeds; it either follows the compose or changes the generation first, in which case the
+// compose must be refused - so the final content is always the upload's.
+func H_C04_race() {
+	g := vNewEmu()
+	vPut(g, "b", "src", []byte("S"))
+	base := vPut(g, "b", "dst", []byte("d"))
+	w := vNewRecorder()
+	var uerr error
+	vGo(func() {
+		r := &http.Request{Body: &vBody{decode: func(v interface{}) error {
+			req := v.(*storage.ComposeRequest)
+			req.Destination = &storage.Object{}
+			req.SourceObjects = []*storage.ComposeRequestSourceObjects{{Name: "src"}}
+			return nil
+		}}}
+		g.handleGcsCompose(vCtx(), dontNeedUrls, w, r, "b", "dst/compose", cloudstorage.Conditions{GenerationMatch: base.Generation})
+	})
+	vGo(func() {
+		_, uerr = g.finishUpload(vCtx(), dontNeedUrls, &storage.Object{Bucket: "b", Name: "dst"}, []byte("U"), "b", emptyConds)
+	})
+	vJoin()
+	vAssert(uerr == nil, "race:unconditional-upload-ok")
+	vAssert(w.code == http.StatusOK || w.code == http.StatusPreconditionFailed, "race:compose-ok-or-412")
+	st := vSnap(g, "b", "dst")
+	vAssert(st.exists && string(st.content) == "U", "race:a-compose-conditioned-on-the-old-generation-never-overwrites-the-newer-upload")
+	vReach("c04-race")
+}
+
 // H_C04_parse: parseConds on arbitrary short parameter values.
 func H_C04_parse() {
 	names := []string{"ifGenerationMatch", "ifGenerationNotMatch", "ifMetagenerationMatch", "ifMetagenerationNotMatch"}
